@@ -230,6 +230,11 @@ pub enum BinOp {
     Join(JoinKind, JoinForm),
     /// interval join on ts (lower, upper); keyed = group_by both sides first
     IntervalJoin { lower: i64, upper: i64, keyed: bool },
+    /// left.group_by_fold(key) (two-phase, keyed) joined by KeyedStream::join with
+    /// right.group_by(key): relies on both group-by connections agreeing on key -> replica
+    KeyedJoinAssoc(AggFn),
+    /// left.group_by_reduce(key) merged (KeyedStream::merge) with right.group_by(key), then reduce
+    KeyedMergeAssoc(AggFn),
 }
 
 #[derive(Clone, Copy, Debug, Serialize, Deserialize, PartialEq, Eq)]
